@@ -6,11 +6,11 @@ ASSUMPTIONS = B.ASSUMPTIONS
 ASPECTS = 'FRD'
 RULE = ('random histories of 2-5 connections over two permission tables: per-connection scripts of AUTH (valid and ten invalid '
         'digest variants), SUBSCRIBE/UNSUBSCRIBE/PUBLISH (mostly permitted, some forbidden or spoofed), malformed frames; '
-        'streams cut at random (whole, per frame, per byte, inside headers); events interleaved at random with Lost, EOF, '
+        'streams cut at random (whole, per frame, per byte, inside headers, pipelined bursts of 1-4 whole frames); some plans add valid re-authentication under another identity and a directed scenario (subscribe, re-authenticate, leave, then others publish on every channel ever held); events interleaved at random with Lost, EOF, '
         'pause/resume-writing and clock ticks; non-trivial = at least one PUBLISH was delivered; distinct by event list. '
-        'Compared with the Coq model on aspects %s; frame-normalised synchronous-store histories are also judged by '
-        'harness/judge.py')
-PLAN = [(100, 2500, dict(profile='mixed', faults=0.12), False), (120, 2500, dict(profile='mixed', chunking='frames', faults=0.12), True), (50, 1000, dict(profile='mixed', async_=True, faults=0.12), False)]
+        'Compared with the Coq model on aspects %s; frame-normalised synchronous-store histories (one frame per read, or a read of several permitted frames) are '
+        'also judged by harness/judge.py')
+PLAN = [(60, 800, dict(scenario='reauth_leave'), True), (30, 400, dict(scenario='reauth_leave', async_=True), False), (40, 800, dict(profile='mixed', faults=0.12, reauth=0.08), False), (100, 2500, dict(profile='mixed', faults=0.12), False), (120, 2500, dict(profile='mixed', chunking='frames', faults=0.12), True), (50, 1000, dict(profile='mixed', async_=True, faults=0.12), False)]
 
 
 def run(ctx, res):
